@@ -23,20 +23,23 @@ LEAN_PROPS_EXTRA = ["PpciVerif/Props/C11T1.lean"]   # T1 translation tie of relo
 LEAN_TARGETS = ["PpciVerif.Props.C11", "Drivers.C11", "PpciVerif.Props.C11T1"]
 LEVEL = "proof"
 LEVEL_TEXT = (
-    "Lean theorems over a model of the linker's relocation step (symbol value = symbol offset + section address, site address = "
-    "section address + offset, slice, apply, write back; bytes outside the site unchanged) composed with the per-type apply models: "
-    "for riscv b_imm12, b_imm20/cb_imm11/cbl_imm11, bc_imm11, bc_imm8, arm imm24, thumb wrap_new11, rel8, lit8, bl_imm11, x86_64 rel32, "
-    "jmp8, abs32, abs64: if the step succeeds then the relocated bytes, read with the ISA-manual decoder Spec.RelocSem.decodeTarget, "
-    "designate exactly the symbol's final address (+ addend for rel32), for ALL symbol values, site addresses and prior bytes -- under "
-    "the explicit guard 'distance representable' where ppci's own range check is too wide (open findings, negation witness proved: a "
-    "branch 6000 bytes ahead links as a branch 2192 bytes back), and without guard for thumb wrap_new11/rel8/lit8 and the absolute types. "
-    "riscv hi/lo pairs: (hi<<12)+sext12(lo) = S mod 2^32 (absolute) resp. S-P mod 2^32 (pc-relative) for all integers. "
-    "The list-level statement (all relocations of a link) is not proved beyond the single step + frame lemma.")
+    "Lean theorems over a model of the linker's relocation phase (Linker.do_relocations/_do_relocation: symbol value = symbol offset + "
+    "section address, site address = section address + offset, slice, apply, write back) composed with the per-type apply models. "
+    "LIST LEVEL (all_sites_resolve_partial): if do_relocations succeeds on pairwise disjoint sites (decidable; checked on every real "
+    "link) then for EVERY relocation of the output object the site bytes, read with the ISA-manual decoder Spec.RelocSem.decodeTarget, "
+    "designate exactly the symbol's final address (+ addend for x86_64 rel32), for all sections, symbols, offsets and prior bytes, "
+    "whenever the reference is `resolvable` (Spec.LinkGuard: representable in the architecture's field -- the explicit guard needed "
+    "exactly where ppci's own range check is too wide, open findings with a proved negation witness -- plus standing assumptions); "
+    "bytes_outside_sites_unchanged: every other byte, every section address/length and every symbol value is that of the merged "
+    "input (the interface to C12). Types covered: riscv b_imm12, b_imm20/cb_imm11/cbl_imm11, bc_imm11, bc_imm8, arm imm24, ldr_imm12, "
+    "thumb wrap_new11, rel8, lit8, bl_imm11, x86_64 rel32, jmp8, abs32, abs64 (no guard needed for thumb wrap_new11/rel8/lit8, arm "
+    "ldr_imm12 and the absolute types); riscv hi/lo pairs: (hi<<12)+sext12(lo) = S mod 2^32 resp. S-P mod 2^32 for all integers.")
 LEVEL_NOTE = (
     "trusted: Lean kernel; hand models Model.Reloc / Model.LinkReloc tied to /repo by differential runs through the real link() on every "
     "check (sampled at range edges); Spec.RelocSem is my reading of the RISC-V/ARM/Intel manuals, validated for the riscv/arm/thumb branch "
-    "types against llvm-mc --disassemble in the thorough tier. Not covered: relocation types of the other 8 targets; arm ldr_imm12/adr_imm12 "
-    "and thumb b_imm11_imm6 have models and are checked by the harness against the Spec decoders but have no theorem; merging/layout is C12.")
+    "types against llvm-mc --disassemble in the thorough tier. Not covered: relocation types of the other 8 targets; arm adr_imm12 "
+    "and thumb b_imm11_imm6 have models and are checked by the harness against the Spec decoders (also in compiled programs) but have no "
+    "theorem; the hi/lo pair theorems are at the apply level; merging/layout is C12, relaxation C13.")
 TECHNIQUE = ("Lean 4 proofs (bit-field algebra + omega on literal div/mod) over hand models + differential correspondence through the real "
              "linker + spec validation against LLVM's disassembler")
 RULE = ("per relocation type: distances d = S - P - bias at +-2^k, +-2^k+-{2,4,8} for k around the field width and the accepted width, "
@@ -376,6 +379,10 @@ def check_programs(ctx):
             for r in rels:
                 size = rmap[r.reloc_type].size()
                 sites.append((r.section, r.offset, size))
+                if r.addend != 0:             # which producers ever emit an addend? (only x86_64 rel32, -4)
+                    ctx.count(f"addend_nonzero_{r.reloc_type}")
+                    if r.reloc_type != "rel32":
+                        ctx.note(f"{archname}: a compiled program carries addend {r.addend} on a {r.reloc_type} relocation")
             # the decidable hypothesis of the list-level theorem, on the real object
             overlap = [(a, b) for i, a in enumerate(sites) for b in sites[i + 1:]
                        if a[0] == b[0] and a[1] < b[1] + b[2] and b[1] < a[1] + a[2]]
